@@ -7,12 +7,13 @@ from .c05 import node_of
 
 LEVEL = 'proof'
 RULES = {
+    'C08.R5': 'the links, leaf flags and node set this property reads are what the arena mutators maintain as their effect contracts say (shared with C12.R2)',
     'C08.R4': helpers.RULE_TEXT,
     'C08.R1': 'the remove/merge pair in reduce is control-dependent on: node is not the root; both children[0] and children[1] present; both childless; left.aff == right.aff for exactly those two children',
     'C08.R2': 'PartialEq for AffFuncBase is the conjunction of mat == mat and bias == bias',
     'C08.R3': 'bottom-up order (reversed breadth-first sequence from the root), the sweep is left only at the end of the sequence, no insertion in reduce, removal = (remove label 1, splice label 0)',
 }
-FLOORS = {'C08.R4': 4, 'C08.R1': 2, 'C08.R2': 1, 'C08.R3': 4}
+FLOORS = {'C08.R5': 15, 'C08.R4': 4, 'C08.R1': 2, 'C08.R2': 1, 'C08.R3': 4}
 EXPLANATION = ('Given C12 (SPLICE/DETACH contracts): the two removed-or-kept siblings are both defined and carry the bit-identical map, so every input routed '
                'to either gets the same value; no growth; parents are examined after their children (cascades, idempotence); siblings differing in any '
                'coefficient or bias are kept.')
@@ -21,6 +22,7 @@ DOES_NOT_DECIDE = 'nothing value-level: equality is bit equality of the stored a
 
 def run(ctx):
     helpers.run_for(ctx)
+    helpers.share_arena_contracts(ctx, 'C08.R5')
     F = ctx.facts
     b = ctx.body('C08.R1', 'AffTree::reduce')
     if b is None:
